@@ -1,4 +1,4 @@
-import UvModel.Lemmas.AsyncLemmas3
+import UvModel.Lemmas.AsyncLemmas4
 import UvModel.Generated.AsyncSeq
 /-! # C09 — uv_async_send: property theorems (model: UvModel.Async, invariants: UvModel.Lemmas.AsyncLemmas*)
 
@@ -79,16 +79,36 @@ theorem no_deadlock_while_owing {s : State} (hr : Reachable s) (h : Nat)
     (step? s .loop).isSome = true ∨ ∃ t, (step? s (.snd t)).isSome = true :=
   owed_implies_some_thread_enabled (inv_reachable hr) h hp ho
 
-def runN (σ : Nat → Act) (n : Nat) (s : State) : State := (List.range n).foldl (fun s i => step s (σ i)) s
+/-- Liveness under weak fairness.  `s`: any reachable state in which an open handle `h` has a send owed and no
+uv_close is in the middle of uv__async_spin; `σ`: any infinite continuation (sender steps, new sends, loop steps,
+close callbacks — no uv_close) in which the loop thread and every sender thread are scheduled again and again.
+Then the callback of `h` starts.  (Measure: `mu` = 2·(loop steps until the scan reaches `h`, counting a full
+extra pass when the scan is already past `h`) + 1 while the loop sleeps with the eventfd at 0; sender steps never
+increase it, the helpful thread — the loop, or the sender parked at the eventfd write — strictly decreases it.) -/
+theorem send_then_callback_liveness {s : State} (hr : Reachable s) (h : Nat)
+    (hp : (s.hs h).pending ≠ 0) (ho : (s.hs h).closing = false) (hnc : noClosePc s)
+    (σ : Nat → Act) (hσ : ∀ n h', σ n ≠ .close h')
+    (fairL : ∀ n, ∃ m, m ≥ n ∧ σ m = .loop)
+    (fairS : ∀ n t, t < s.snd.length → ∃ m, m ≥ n ∧ σ m = .snd t) :
+    ∃ n, ((runN σ n s).hs h).cbs > (s.hs h).cbs := by
+  have hσ' : ∀ n, notClose (σ n) := by
+    intro n; have := hσ n; cases hn : σ n <;> simp [notClose]; exact absurd hn (this _)
+  exact liveness_aux σ hσ' s h _ fairL fairS (mu s h) 0 (by simp [runN]) (by simpa [runN] using ⟨inv_reachable hr, hp, ho, rfl, hnc⟩)
 
-/-- FULL liveness statement — NOT proved.  In every infinite continuation without uv_close in which the loop
-thread and every sender are scheduled again and again, the callback of an open handle with a send owed starts.
-Proved towards it: `send_then_callback` (the obligation is recorded in `pending` and its wake-up is not lost),
-`no_deadlock_while_owing` (some thread can always move), `close_waits_for_critical_section`.  Missing: a
-termination measure for the scan of uv__async_io (position of h in `queue`/`handles`) under interleaved sender
-steps.  The scheduler harness checks this end-to-end for the enumerated configurations (every terminal and
-every quiescent state of the DFS is examined by the lost-wakeup / send-without-callback monitors). -/
-def send_then_callback_liveness : Prop :=
+/-- hypotheses are satisfiable in the interesting case: sender preempted between exchange and eventfd write, loop asleep -/
+example : let s := run (init 2 2) [.begin 0 1, .snd 0, .snd 0, .snd 0]
+    (s.hs 1).pending ≠ 0 ∧ (s.hs 1).closing = false ∧ s.lpc = .idle ∧ s.efd = 0 ∧ noClosePc s := by
+  refine ⟨by decide, by decide, by decide, by decide, ?_⟩
+  have hl : (run (init 2 2) [.begin 0 1, .snd 0, .snd 0, .snd 0]).lpc = .idle := by decide
+  intro h' r; rw [hl]; constructor <;> simp
+
+/-- FULL liveness statement: the same without `noClosePc s`, i.e. also when `s` is in the middle of a uv_close of
+ANOTHER handle (loop thread parked in uv__async_spin).  NOT proved: the measure needs one more component for that
+phase (Σ over the senders inside uv_async_send on the handle being closed of their remaining steps — finite because
+no new send can begin on a closing handle — and the helpful thread there is a sender inside the busy section,
+`close_waits_for_critical_section` / `no_deadlock_while_owing`), and `rankL` must be extended through
+closeStore/closeSpin → `r.toPc` with the unlinked handle filtered out of `queue`. -/
+def send_then_callback_liveness_full : Prop :=
   ∀ s, Reachable s → ∀ h, (s.hs h).pending ≠ 0 → (s.hs h).closing = false →
     ∀ σ : Nat → Act, (∀ n h', σ n ≠ .close h') →
       (∀ n, ∃ m, m ≥ n ∧ σ m = .loop) → (∀ n t, t < s.snd.length → ∃ m, m ≥ n ∧ σ m = .snd t) →
